@@ -178,7 +178,10 @@ class C07(Prop):
                     bucket.replace_last(merged)
                 else:
                     bucket.insert(heartbeat)
-                steps.append(sorted((ev_tuple(e)[1:] for e in bucket.get(-1))))
+                if not noise:
+                    # (a stream with refused operations in between is observed at its end only: a read here would flush
+                    # the write that the refused operation must not undo)
+                    steps.append(sorted((ev_tuple(e)[1:] for e in bucket.get(-1))))
             d = storelib.dump(store)
             red = heartbeat_reduce([mk_event(e) for e in case["stream"]], case["pt"])
             return {"final": [e[1:] for e in sorted(d["hb"]["events"], key=lambda e: e[1])],
